@@ -200,10 +200,16 @@ class VerifyEnv:
         return REGISTRY
 
     def may_inline(self, qual):
-        return qual in INLINE
+        return qual in INLINE or qual in self._force_inline
+
+    _force_inline = frozenset()
 
     def contract_for(self, qual, ex, st, fv, args, kwargs):
         c = REGISTRY.get(qual)
+        if ex.contract is not None and qual in getattr(ex.contract, "inline_callees", ()):
+            # this caller is verified against the BODIES of these small callees (reported as inlined)
+            self._force_inline = frozenset(ex.contract.inline_callees)
+            return None
         if c is not None and ex.contract is c and ex.depth == 0 and getattr(c, "recursive_inline", False):
             return None
         return c
